@@ -746,3 +746,37 @@ M("decorator-unused-local", ["~C07"], DEC,
 M("knn-learn-running-best-dedented", ["C16"], KNN,
   "            if acc > max_acc:\n                max_acc = acc\n                best_k = k\n",
   "            if acc > max_acc:\n                best_k = k\n            max_acc = acc\n")
+
+# ---------------------------------------------------------------------------
+# unrelated edits every check must stay silent on (logging, assertions, annotations, new members)
+# ---------------------------------------------------------------------------
+M("benign-debug-log-in-accepted-branch", (), SUP,
+  "                            h.update(q, current_cost)\n",
+  "                            h.update(q, current_cost)\n                            logger.debug(\"node %d conquered by %d\", q, p)\n")
+M("benign-debug-fstring-after-removal", (), SUP,
+  "            self.subgraph.idx_nodes.append(p)\n            self.subgraph.nodes[p].cost = h.cost[p]",
+  "            self.subgraph.idx_nodes.append(p)\n            logger.debug(f\"removed {p} with cost {h.cost[p]}\")\n            self.subgraph.nodes[p].cost = h.cost[p]")
+M("benign-assert-in-fit", (), SUP,
+  "        h = Heap(size=self.subgraph.n_nodes)\n\n        for i in range(self.subgraph.n_nodes):\n            if self.subgraph.nodes[i].status == c.PROTOTYPE:",
+  "        h = Heap(size=self.subgraph.n_nodes)\n        assert self.subgraph.n_nodes > 0\n\n        for i in range(self.subgraph.n_nodes):\n            if self.subgraph.nodes[i].status == c.PROTOTYPE:")
+M("benign-annotated-local", (), SUP,
+  "                        current_cost = np.maximum(h.cost[p], weight)\n\n                        if current_cost < h.cost[q]:\n                            self.subgraph.nodes[q].pred = p",
+  "                        current_cost: float = np.maximum(h.cost[p], weight)\n\n                        if current_cost < h.cost[q]:\n                            self.subgraph.nodes[q].pred = p")
+M("benign-new-public-method-on-model", (), SUP,
+  "    def predict(self, X_val: np.array, I_val: Optional[np.array] = None) -> List[int]:",
+  "    def n_prototypes(self) -> int:\n        \"\"\"Number of prototypes of the fitted classifier.\"\"\"\n\n        return sum(1 for n in self.subgraph.nodes if n.status == c.PROTOTYPE)\n\n    def predict(self, X_val: np.array, I_val: Optional[np.array] = None) -> List[int]:")
+M("benign-heap-repr", (), HEAP,
+  "    def remove(self) -> int:",
+  "    def __repr__(self) -> str:\n        return f\"Heap(size={self.size}, policy={self.policy!r}, last={self.last})\"\n\n    def remove(self) -> int:")
+M("benign-heap-pass-and-comment", (), HEAP,
+  "        if not self.is_empty():\n            p = self.p[0]\n",
+  "        if not self.is_empty():\n            # the root is the extremal element\n            pass\n            p = self.p[0]\n")
+M("benign-knn-log-per-node", (), KSUB,
+  "            self.nodes[i].radius = 0.0\n",
+  "            logger.debug(\"neighbours of node %d found\", i)\n            self.nodes[i].radius = 0.0\n")
+M("benign-unsup-info-log", (), UNS,
+  "            self.subgraph.idx_nodes.append(p)\n",
+  "            self.subgraph.idx_nodes.append(p)\n            logger.debug(\"node %d leaves the queue\", p)\n")
+M("benign-general-log-in-confusion-matrix", (), GEN,
+  "    n_class = np.max(labels) + 1\n\n    c_matrix = np.zeros((n_class, n_class))",
+  "    n_class = np.max(labels) + 1\n    logger.debug(\"%d classes\", n_class)\n\n    c_matrix = np.zeros((n_class, n_class))")
